@@ -90,18 +90,25 @@ def wbBreak (left right : List Ch) : Bool :=
       else true                                                               -- WB999
 
 /-! ## summary automaton -/
+/-- what WB7, WB7c and WB11 need to know about the unit before the last one -/
+inductive L1 | other | aletter | hebrew | numeric
+deriving DecidableEq, Repr, Hashable, Inhabited
+
+def absL1 : Option C → L1
+  | some .aletter => .aletter | some .hebrew => .hebrew | some .numeric => .numeric | _ => .other
+
 structure Q where
   lastRaw : Option C
   l0 : Option C
-  l1 : Option C
+  l1 : L1
   riOdd : Bool
 deriving DecidableEq, Repr, Hashable
 
-def q0 : Q := ⟨none, none, none, false⟩
+def q0 : Q := ⟨none, none, .other, false⟩
 def absorbed (q : Q) (c : C) : Bool := isIgn c && (match q.lastRaw with | none => false | some l => !isNL l)
 def qstepC (q : Q) (c : C) : Q :=
   if absorbed q c then { q with lastRaw := some c }
-  else ⟨some c, some c, q.l0, if c == ri then !q.riOdd else false⟩
+  else ⟨some c, some c, absL1 q.l0, if c == ri then !q.riOdd else false⟩
 def qstep (q : Q) (x : Ch) : Q := qstepC q x.cls
 def summC : List C → Q
   | [] => q0
@@ -124,14 +131,14 @@ def qout (q : Q) (r : Ch) (nx : Option C) : Bool :=
       let r := r.cls
       if opt isAHL l0 && isAHL r then false
       else if opt isAHL l0 && isMidL r && opt isAHL nx then false
-      else if opt isAHL l1 && opt isMidL l0 && isAHL r then false
+      else if (l1 == .aletter || l1 == .hebrew) && opt isMidL l0 && isAHL r then false
       else if l0 == some hebrew && r == singlequote then false
       else if l0 == some hebrew && r == doublequote && nx == some hebrew then false
-      else if l1 == some hebrew && l0 == some doublequote && r == hebrew then false
+      else if l1 == .hebrew && l0 == some doublequote && r == hebrew then false
       else if l0 == some numeric && r == numeric then false
       else if opt isAHL l0 && r == numeric then false
       else if l0 == some numeric && isAHL r then false
-      else if l1 == some numeric && opt isMidN l0 && r == numeric then false
+      else if l1 == .numeric && opt isMidN l0 && r == numeric then false
       else if l0 == some numeric && isMidN r && nx == some numeric then false
       else if l0 == some katakana && r == katakana then false
       else if opt isWord13a l0 && r == extendnumlet then false
@@ -149,7 +156,7 @@ theorem parity (n : Nat) : (!(n % 2 == 1)) = ((n + 1) % 2 == 1) := by
 structure Inv (left : List C) : Prop where
   lastRaw : (summC left).lastRaw = left.head?
   l0 : (summC left).l0 = (strip left).head?
-  l1 : (summC left).l1 = (strip left).tail.head?
+  l1 : (summC left).l1 = absL1 (strip left).tail.head?
   odd : (summC left).riOdd = (riRun (strip left) % 2 == 1)
 
 theorem inv_all (left : List C) : Inv left := by
@@ -170,7 +177,7 @@ theorem inv_all (left : List C) : Inv left := by
     · have hab' : absorbed (summC xs) x = false := by simpa using hab
       have hst : strip (x :: xs) = x :: strip xs := by
         rw [strip_cons]; simp only [absorbed, h1] at hab'; simp [hab']
-      have hq : summC (x :: xs) = ⟨some x, some x, (summC xs).l0, if x == ri then !(summC xs).riOdd else false⟩ := by
+      have hq : summC (x :: xs) = ⟨some x, some x, absL1 (summC xs).l0, if x == ri then !(summC xs).riOdd else false⟩ := by
         rw [hs, qstepC]; simp [hab']
       constructor
       · rw [hq]; rfl
@@ -178,6 +185,23 @@ theorem inv_all (left : List C) : Inv left := by
       · rw [hq, hst, h2]; rfl
       · rw [hq, hst, h4]
         cases x <;> simp [riRun, parity]
+
+theorem absL1_ahl (o : Option C) : (absL1 o == .aletter || absL1 o == .hebrew) = opt isAHL o := by
+  cases o with
+  | none => rfl
+  | some c => cases c <;> rfl
+theorem absL1_ahl' (o : Option C) : (absL1 o == .aletter || o == some hebrew) = opt isAHL o := by
+  cases o with
+  | none => rfl
+  | some c => cases c <;> rfl
+theorem absL1_hebrew (o : Option C) : (absL1 o == .hebrew) = (o == some hebrew) := by
+  cases o with
+  | none => rfl
+  | some c => cases c <;> rfl
+theorem absL1_numeric (o : Option C) : (absL1 o == .numeric) = (o == some numeric) := by
+  cases o with
+  | none => rfl
+  | some c => cases c <;> rfl
 
 /-- factorisation: the declarative reading depends on the left context only through `summ` and on
 the text after `r` only through the first class that WB4 does not ignore -/
@@ -188,6 +212,6 @@ theorem wbBreak_factor (left : List Ch) (r : Ch) (rs : List Ch) :
   | cons l ls =>
     obtain ⟨h1, h2, h3, h4⟩ := inv_all (clss (l :: ls))
     simp only [clss, List.map_cons] at h1 h2 h3 h4
-    simp only [wbBreak, qout, summ, clss, List.map_cons, h1, h2, h3, h4, List.head?_cons]
+    simp only [wbBreak, qout, summ, clss, List.map_cons, h1, h2, h3, h4, List.head?_cons, absL1_ahl', absL1_hebrew, absL1_numeric]
 
 end Uniseg.Spec.WB
